@@ -227,4 +227,11 @@ def C0 : Mps.Alg.Site (Fin 2) (Fin 1) ℤ := fun s => if s = 0 then 2 • (1 : M
 def gz : Nat → Matrix (Fin 2) (Fin 2) ℤ := fun _ => !![0, 1; 1, 0]
 def gzz : Nat → Matrix (Fin 2 × Fin 2) (Fin 2 × Fin 2) ℤ := fun _ => 1
 
+
+/-- a second product chain `(|0⟩ + 2|1⟩) ⊗ (2|0⟩ + 3|1⟩)`, and `X ⊗ X` as a 4×4 matrix -/
+def A0 : Mps.Alg.Site (Fin 2) (Fin 1) ℤ := fun s => if s = 0 then 1 else 2 • 1
+def xx : Matrix (Fin 2 × Fin 2) (Fin 2 × Fin 2) ℤ := Matrix.of fun x y => if x.1 ≠ y.1 ∧ x.2 ≠ y.2 then 1 else 0
+/-- `X` applied to a site tensor: the split of the merged pair with `X ⊗ X` applied is `(X·A, X·B)` -/
+def flipS (T : Mps.Alg.Site (Fin 2) (Fin 1) ℤ) : Mps.Alg.Site (Fin 2) (Fin 1) ℤ := fun s => T (1 - s)
+
 end Yaqs.ColumnValues.Example
